@@ -20,7 +20,10 @@ def _q(args):
     from ..sched import encode, extract
 
     scr, force_shared = args
-    rel = extract.extract()
+    try:
+        rel = extract.extract()
+    except Exception:
+        rel = extract.extract_concrete()
     if force_shared:
         rel["shared"] = True
     t0 = time.time()
@@ -37,8 +40,12 @@ def main(tier, only=None):
     try:
         rel = extract.extract()
     except Exception as e:
-        print("HARNESS-ERROR property=C20 cannot extract the trace-entry/exit transition relation from the real tracer: %s" % e)
-        return 3
+        try:
+            rel = extract.extract_concrete()
+            print("NOTE property=C20 symbolic extraction of the trace entry/exit relation failed (%s); using %s" % (str(e)[:100], rel["extraction"]))
+        except Exception as e2:
+            print("HARNESS-ERROR property=C20 cannot extract the trace-entry/exit transition relation from the real tracer: %s / %s" % (e, e2))
+            return 3
     reldesc = {k: str(v) for k, v in rel.items() if not callable(v)}
     if tier == "quick":
         tuples = encode.script_tuples(2, 3, 6)
